@@ -608,3 +608,7 @@ Theorem C12_good_line_examples : forall (dec2f dec2d : list Z -> Z),
         [47; 97; 32; 91; 48; 46; 53; 48; 32; 40; 48; 120; 49; 112; 45; 49; 41; 32; 53; 120; 45; 48; 46; 48; 48; 32;
          40; 45; 48; 120; 48; 112; 43; 48; 41; 93; 10]).
 Proof. exact good_line_examples. Qed.
+
+(* the class of lines is decidable: the tie evaluates good_line_b on every saved line *)
+Theorem C12_good_line_computed : forall l, good_line_b l = true -> good_line l.
+Proof. exact good_line_b_sound. Qed.
